@@ -198,6 +198,9 @@ def _c07_cases(tier, seed):
     n = 40 if tier == "quick" else 500
     kinds = ["mink", "fourier", "msm", "lik", "gsl"]
     yield {"loss": "gsl", "rs": 1, "fixed": {"N": 40, "nbv": None, "nwl": 3}}   # default symbol count >= 10
+    # exactly constant series (every member and the real series): the discretisation puts them on the middle symbol
+    for nbv_ in (3, 5, 9):
+        yield {"loss": "gsl", "rs": rnd.randrange(10 ** 9), "fixed": {"N": 12, "nbv": nbv_, "nwl": 2, "kind": "const"}}
     # cut-offs that fall exactly half-way between two frequencies (f * n_freq = k + 0.5, k even and odd): the documented
     # rounding is numpy's (half to even)
     for N_ in (8, 9, 12, 16, 17, 25):
@@ -206,8 +209,6 @@ def _c07_cases(tier, seed):
     # every weighting x standardisation combination of the method of moments, systematically (two data sets each)
     for cov in ("identity", "matrix", "inverse_variance"):
         for std in (False, True):
-            if cov == "inverse_variance" and std:
-                continue
             for _ in range(2):
                 yield {"loss": "msm", "rs": rnd.randrange(10 ** 9), "msm_opt": (cov, std)}
     for i in range(n):
@@ -238,7 +239,11 @@ def _c07_eval(reg, case, cache, opt_seed):
     fx = case.get("fixed") or {}
     ornd = random.Random(opt_seed)
     Dfix = cache.setdefault("D", ornd.choice([1, 2, 3]))
-    sim, real, kind = _data(drnd, kind="normal" if fx else None, N=fx.get("N"), D=Dfix)
+    sim, real, kind = _data(drnd, kind="normal" if fx else None, N=fx.get("N"), D=Dfix,
+                            E=3 if fx.get("kind") == "const" else None)
+    if fx.get("kind") == "const":
+        sim[0] = 0.25               # one simulated member is exactly constant, the others and the real series are not
+        kind = "one-constant-member"
     E, N, D = sim.shape
     rnd = random.Random(opt_seed + 1)
     weights = None if rnd.random() < 0.5 else np.array([rnd.choice([0.0, 0.5, 1.0, 2.0]) for _ in range(D)])
@@ -271,7 +276,7 @@ def _c07_eval(reg, case, cache, opt_seed):
             what = f"Fourier {kindf} f={f} weights={weights}"
         elif case["loss"] == "msm":
             cov = rnd.choice(["identity", "inverse_variance", "matrix"])
-            std = rnd.random() < 0.3 and cov != "inverse_variance"
+            std = rnd.random() < 0.3
             if "msm_opt" in case:
                 cov, std = case["msm_opt"]
             if kind == "const" and (cov != "identity" or std):
